@@ -19,6 +19,10 @@
 (* declared length equals the message size.                                *)
 (* Level B: the encoder's take-CHUNK loop, the 3-byte length field, the    *)
 (* in-place repair of stale declared lengths, the decoder's offset walk.   *)
+(* The WRITER never emits more than CHUNK bytes per chunk, but a READER    *)
+(* must accept what the 3-byte length field can express: re-chunkings use  *)
+(* pieces of up to 2 * CHUNK (shipped documents contain such chunks).      *)
+(* Bug "DecLen2Bytes": the reader takes two of the three length bytes.     *)
 (***************************************************************************)
 EXTENDS Integers, Sequences, FiniteSets, TLC
 CONSTANTS CHUNK, MaxSegs, MaxMsgs, MaxLen, Bug
@@ -48,7 +52,10 @@ EncodeChunks(st) == LET b == StreamBytes(st, Repaired(st))
                     IN [k \in 1..Len(pieces) |-> [marker |-> 0, lenField |-> LenField(Len(pieces[k])), data |-> pieces[k]]]
 
 \* ---- decoder: concatenate the chunk data, then walk the segments using the header lengths
-Concat(chunks) == Flat([k \in 1..Len(chunks) |-> chunks[k].data])
+\* the reader cuts the file by the length fields it reads; a wrong length makes it lose the framing of everything that follows
+DecLen(c) == IF Bug = "DecLen2Bytes" THEN c.lenField % CHUNK ELSE c.lenField
+Concat(chunks) == IF \E k \in 1..Len(chunks) : DecLen(chunks[k]) # Len(chunks[k].data) THEN <<<<"X">>>>
+                  ELSE Flat([k \in 1..Len(chunks) |-> chunks[k].data])
 RECURSIVE TakeMsgs(_, _, _)
 TakeMsgs(b, p, decl) == \* lengths actually taken for the declared lengths, starting at position p (1-based)
   IF decl = <<>> THEN <<>> ELSE <<Head(decl)>> \o TakeMsgs(b, p + Head(decl), Tail(decl))
@@ -68,7 +75,7 @@ RECURSIVE CutBy(_, _)
 CutBy(b, cs) == IF cs = <<>> THEN <<>> ELSE <<[marker |-> 0, lenField |-> Head(cs), data |-> SubSeq(b, 1, Head(cs))]>>
                                             \o CutBy(SubSeq(b, Head(cs) + 1, Len(b)), Tail(cs))
 RECURSIVE Compositions(_)
-Compositions(n) == IF n = 0 THEN {<<>>} ELSE UNION {{<<k>> \o c : c \in Compositions(n - k)} : k \in 1..(IF n < CHUNK THEN n ELSE CHUNK)}
+Compositions(n) == IF n = 0 THEN {<<>>} ELSE UNION {{<<k>> \o c : c \in Compositions(n - k)} : k \in 1..(IF n < 2 * CHUNK THEN n ELSE 2 * CHUNK)}
 
 Segs == [h : 1..2, msgs : UNION {[1..k -> 0..MaxLen] : k \in 0..MaxMsgs}]
 WithDecl(seg) == {[h |-> seg.h, msgs |-> seg.msgs, decl |-> d] : d \in {seg.msgs} \cup {[j \in 1..Len(seg.msgs) |-> (seg.msgs[j] + 1) % (MaxLen + 1)]}}
